@@ -228,7 +228,10 @@ def run(ctx):
                     # a signed comparison needs a companion `< 0` test on the same value in the same condition
                     lower = any(x.k == "BinaryOperator" and x.op == "<" and x.c[1].cv == 0 and
                                 src(x.c[0].strip_casts()) == var for x in kids[0].walk())
-                    signed_var = not (l.strip_casts().t or "").startswith("u") and "size_t" not in (l.strip_casts().t or "")
+                    # the comparison is unsigned when its (converted) left operand or the index itself is of an unsigned type
+                    from ..rules.skeleton import UNSIGNED, clean_type
+                    tys = [clean_type(c.c[0].t), clean_type(l.strip_casts().t)]
+                    signed_var = not any(t_ in UNSIGNED or t_.startswith("u") or "size_t" in t_ for t_ in tys)
                     ok = not narrowed and (not signed_var or lower)
                     ctx.ob("R4.sign", "index-guard|%s:%s|%s" % (P.rel(fn.file), fn.name, var), P.where(c),
                            "index guard `%s` also excludes negative values (unsigned comparison or an explicit < 0 test)"
